@@ -34,6 +34,47 @@ pub fn run(o: &Opts) -> Report {
             (mk(true), bv(&["prog", "--bb", "--cc", "--aa"]), Box::new(|_| Ok(()))),
         ];
         run_expect(&mut rep, o, "requires-cycle", cases);
+        // two levels of short flag subcommands, each dispatched from the MIDDLE of a flag group, the second from a later group
+        let mkf = || { let mut c = CmdS { name: "prog".into(), ..Default::default() };
+            c.args.push(ArgS { id: "x".into(), short: Some('x'), action: Some("count"), ..Default::default() });
+            let mut s1 = CmdS { name: "sync".into(), short_flag: Some('S'), ..Default::default() };
+            s1.args.push(ArgS { id: "a".into(), short: Some('a'), action: Some("setTrue"), ..Default::default() });
+            s1.args.push(ArgS { id: "z".into(), short: Some('z'), action: Some("count"), ..Default::default() });
+            let mut s2 = CmdS { name: "trim".into(), short_flag: Some('T'), ..Default::default() };
+            s2.args.push(ArgS { id: "b".into(), short: Some('b'), action: Some("setTrue"), ..Default::default() });
+            s1.subs.push(s2); c.subs.push(s1); c };
+        let fcases: Vec<(CmdS, Vec<Vec<u8>>, Expect)> = vec![
+            (mkf(), bv(&["prog", "-xxSa", "-Tb"]), Box::new(|m| { want_occs(m, &[], "x", &[&["2"]])?; want_occs(m, &["sync"], "a", &[&["true"]])?; want_occs(m, &["sync", "trim"], "b", &[&["true"]]) })),
+            (mkf(), bv(&["prog", "-xSa", "-zzTb"]), Box::new(|m| { want_occs(m, &["sync"], "z", &[&["2"]])?; want_occs(m, &["sync", "trim"], "b", &[&["true"]]) })),
+            (mkf(), bv(&["prog", "-xxxSzaTb"]), Box::new(|m| { want_occs(m, &[], "x", &[&["3"]])?; want_occs(m, &["sync", "trim"], "b", &[&["true"]]) })),
+            (mkf(), bv(&["prog", "-S", "-a", "-zTb"]), Box::new(|m| { want_occs(m, &["sync"], "z", &[&["1"]])?; want_occs(m, &["sync", "trim"], "b", &[&["true"]]) })),
+        ];
+        run_expect(&mut rep, o, "nested-flag-subcommands-from-separate-groups", fcases);
+        // real crate only: an explicit help request is a structured error whatever the possible values look like (all
+        // hidden, with help texts; none; mixed)
+        {
+            use clap::builder::PossibleValue;
+            use clap::{Arg, ArgAction, Command};
+            for shape in 0..4 {
+                let mk = move || { let pvs: Vec<PossibleValue> = match shape {
+                        0 => vec![PossibleValue::new("old").hide(true).help("deprecated"), PossibleValue::new("older").hide(true).help("deprecated too")],
+                        1 => vec![PossibleValue::new("old").hide(true).help("deprecated"), PossibleValue::new("new").help("current")],
+                        2 => vec![PossibleValue::new("old").hide(true), PossibleValue::new("older").hide(true)],
+                        _ => vec![PossibleValue::new("plain")] };
+                    Command::new("prog").arg(Arg::new("mode").long("mode").action(ArgAction::Set).value_parser(pvs.clone()).help("the mode"))
+                        .subcommand(Command::new("sub").arg(Arg::new("pm").action(ArgAction::Set).value_parser(pvs))) };
+                for argv in [vec!["prog", "--help"], vec!["prog", "-h"], vec!["prog", "help"], vec!["prog", "help", "sub"], vec!["prog", "sub", "--help"], vec!["prog", "sub", "-h"], vec!["prog", "--mode", "nope"], vec!["prog", "--mode", "old"]] {
+                    let key = format!("possible-values-shape#{shape} argv={argv:?}");
+                    rep.case(&key, true); rep.count("shape:help-with-hidden-possible-values");
+                    let av: Vec<String> = argv.iter().map(|x| x.to_string()).collect();
+                    let wants_help = argv.iter().any(|w| *w == "--help" || *w == "-h" || *w == "help");
+                    match std::panic::catch_unwind(move || mk().try_get_matches_from(av).map(|_| ()).map_err(|e| { let _ = e.render().to_string(); e.kind() })) {
+                        Err(_) => rep.oracle_fail("panic", &key, "parsing or rendering panicked"),
+                        Ok(r) => { if wants_help && r != Err(clap::error::ErrorKind::DisplayHelp) { rep.oracle_fail("help-request-not-a-help-error", &key, &format!("{r:?}")); } }
+                    }
+                }
+            }
+        }
         // whatever the configuration checks accept must parse to a result: groups nested in themselves are rejected by
         // the unchanged checks (then these shapes are skipped); if they are ever accepted, parsing still has to return
         for k in 0..3 {
